@@ -1,25 +1,18 @@
 SPECIFICATION Spec
-CONSTANT Cfg <- MCCfg3x3a3
-CONSTANT Limits = {1, 2, 99}
-CONSTANT Starts0 <- SymStarts3
+CONSTANT Cfg <- MCCfg3x3a2
+CONSTANT Limits = {1, 2, 3}
+CONSTANT Starts0 <- AllStarts
+CONSTANT Starts1 <- AllStarts
 CONSTRAINT Bounded
 VIEW View
 INVARIANT Protocol
 INVARIANT InitWellFormed
 INVARIANT MaskSound
-INVARIANT LegalNeverInvalid
 INVARIANT MidHasMove
-INVARIANT InvalidNoEffect
-INVARIANT AllInvalidChangesNothing
 INVARIANT FeasibleAlways
 INVARIANT CompletionIsSolution
 INVARIANT PhysOK
-INVARIANT Conservation
-INVARIANT Total
-INVARIANT LowerIdYields
-INVARIANT UncontestedMoves
-INVARIANT RewardRange
-INVARIANT DoneIsAbsorbing
 INVARIANT TimeLimitExact
 INVARIANT ObsAgrees
+INVARIANT TransitionsOK
 CHECK_DEADLOCK FALSE
